@@ -231,7 +231,7 @@ class C17(SeqProp):
     id = "C17"
 
     def weights(self):
-        return {"store": 3, "store_data": 0.5, "tag": 1, "div": 1, "delete": 3, "retrieve": 2, "hex": 2,
+        return {"store": 3, "store_data": 2, "tag": 1, "div": 1, "delete": 3, "retrieve": 2, "hex": 2,
                 "smeta": 3, "rmeta": 2, "dmeta": 1, "bad": 10}
 
     def owned(self, call, s, ctx):
